@@ -329,7 +329,30 @@ func AnyWrap(r *prng.R) string {
 		fmt.Fprintf(&b, "print (%s%s == %s%s)\n", v, idx, v, idx)
 		fmt.Fprintf(&b, "for e := range %s\n    print (typeof e) e\nend\n", v)
 	}
-	switch r.Intn(9) {
+	switch r.Intn(11) {
+	case 9, 10:
+		// the algebra of empty literals: an empty composite has no element type of its own, so what
+		// the parser infers for it and what the evaluator builds must be made to agree at every use
+		es := []string{"[]", "{}", "([])", "({})", "[[]]", "([[]])", "(([]))", "[] + []", "[] * 3", "[[]] * 2", "[] + [1]", "[1] + []", "[] + [] + [1]", "[[]] + []", "[[]] + [[]]",
+			"[[[]]] + [[]]", "[{a:[]}] + [{}]", "{a:[]}", "{a:{}}", "[{}]", "[[] []]", "[[] [1]]", "[{} {a:1}]", "[][:]", "[[]][0]", "{a:[]}.a", "{a:[]}[\"a\"]", "[1][:0]", "[1][1:]",
+			"[[]][:1]", "([] + [])", "([] * 2)", "[([])]", "{a:([])}", "[] * 0", "[[]] + [[1]]", "[[1]] + [[]]", "{a:[] b:[1]}", "{a:[1] b:[]}", "[{} {}]"}
+		e1, e2 := es[r.Intn(len(es))], es[r.Intn(len(es))]
+		switch r.Intn(7) {
+		case 0:
+			fmt.Fprintf(&b, "x := %s\nprint (typeof x) x (len x) (x == x)\ny := x\nprint (typeof y) y\nfor e := range x\n    print (typeof e) e\nend\n", e1)
+		case 1:
+			fmt.Fprintf(&b, "a:any\na = %s\nprint (typeof a) a (a == a)\na = %s\nprint (typeof a) a\n", e1, e2)
+		case 2:
+			fmt.Fprintf(&b, "z := [%s %s]\nprint (typeof z) z\nfor e := range z\n    print (typeof e) e (len e)\nend\nmz := {k:%s j:%s}\nprint (typeof mz) mz (typeof mz.k)\n", e1, e2, e1, e2)
+		case 3:
+			fmt.Fprintf(&b, "func show v:any\n    print (typeof v) v (v == v)\nend\nshow %s\nshow (%s)\nfunc many v:any...\n    for e := range v\n        print (typeof e) e\n    end\nend\nmany %s (%s) 1\n", e1, e2, e1, e2)
+		case 4:
+			fmt.Fprintf(&b, "for e := range %s\n    print (typeof e) e\nend\nprint (typeof %s) (len %s)\n", e1, e2, e1)
+		case 5:
+			fmt.Fprintf(&b, "x := %s\nprint x\nw := [x x]\nprint (typeof w) (typeof w[0])\nq:any\nq = x\nprint (typeof q)\nq = [x]\nprint (typeof q)\n", e1)
+		default:
+			fmt.Fprintf(&b, "func mk:any\n    return %s\nend\nv := mk\nprint (typeof v) v\nfunc mk2:[]any\n    return %s\nend\nv2 := mk2\nprint (typeof v2) v2\n", e1, []string{"[]", "([])", "[] + []", "[[]]", "[] * 2", "[1][:0]"}[r.Intn(6)])
+		}
 	case 7, 8:
 		// a value held in an any is asserted to a type - the right one or another one
 		// (today: an Evy panic) - and then the value is written through one name and read
